@@ -342,6 +342,11 @@ class Interp:
     def p_le(self, e, a, b):
         return emap(self.o.le, a, b)
 
+    # total-order comparisons (lax.le_to / lt_to, used by searchsorted / sort): identical to <= / < on non-NaN values; NaN operands are not modelled
+    # differently (REAL / XREAL obligations that reach them state non-NaN inputs)
+    p_le_to = p_le
+    p_lt_to = p_lt
+
     def p_gt(self, e, a, b):
         return emap(self.o.gt, a, b)
 
